@@ -447,29 +447,44 @@ def sizes_case(rep, N0, seq):
 
 
 def kron_case(rep):
-    """multi-dimensional operators act as the tensor product of the 1-D ones (mixed bases), checked on an arbitrary symbolic coefficient array"""
-    for (b0, N0, b1, N1) in (('chebychev', 3, 'ultraspherical', 4), ('ultraspherical', 4, 'chebychev', 3), ('chebychev', 4, 'chebychev', 4)):
+    """multi-dimensional operators act as the tensor product of the 1-D ones (mixed bases), checked on an arbitrary symbolic coefficient array; also on
+    long / short intervals and for higher derivatives, where the entries of the mapped operators are tiny or huge (tolerance relative to the largest entry)"""
+    setups = [('chebychev', 3, {}, 'ultraspherical', 4, {}, (1,)), ('ultraspherical', 4, {}, 'chebychev', 3, {}, (1,)), ('chebychev', 4, {}, 'chebychev', 4, {}, (1, 2)),
+              ('ultraspherical', 4, {'x0': 0.0, 'x1': 1e5}, 'chebychev', 4, {'x0': -1e-3, 'x1': 1e-3}, (1, 2, 3)), ('chebychev', 4, {'x0': 0.0, 'x1': 1e7}, 'ultraspherical', 4, {'x0': 5.0, 'x1': 3e5}, (2, 3)),
+              ('fft', 4, {'x0': 0.0, 'x1': 2e5}, 'ultraspherical', 4, {}, (1, 3))]
+    for (b0, N0, k0, b1, N1, k1, ps) in setups:
         H = SpectralHelper(debug=False)
-        H.add_axis(base=b0, N=N0)
-        H.add_axis(base=b1, N=N1)
+        H.add_axis(base=b0, N=N0, **k0)
+        H.add_axis(base=b1, N=N1, **k1)
         H.add_component('u')
         H.setup_fft()
+        lab = f'{b0}{N0}' + (f'[{k0["x0"]:g},{k0["x1"]:g}]' if k0 else '') + f'x{b1}{N1}' + (f'[{k1["x0"]:g},{k1["x1"]:g}]' if k1 else '')
         for axis in (0, 1):
-            name = f'kron/{b0}{N0}x{b1}{N1}/D-axis{axis}'
-            Dn = np.asarray(H.get_differentiation_matrix(axes=(axis,)).todense())
-            D1 = np.asarray(H.axes[axis].get_differentiation_matrix().todense())
-            u = [z3.Real(f'u{j}') for j in range(N0 * N1)]
-            got = matvec(Dn, u)
-            U = np.array(u, dtype=object).reshape(N0, N1)
-            spec = np.empty((N0, N1), dtype=object)
-            for i in range(N0):
-                for j in range(N1):
-                    if axis == 0:
-                        spec[i, j] = sum(rv(D1[i, k]) * U[k, j] for k in range(N0)) if np.any(D1[i]) else z3.RealVal(0)
-                    else:
-                        spec[i, j] = sum(rv(D1[j, k]) * U[i, k] for k in range(N1)) if np.any(D1[j]) else z3.RealVal(0)
-            decide(rep, name, close(got, list(spec.ravel()), rv(Fraction(1, 10**10) * 100)), u, 'kronecker-expansion',
-                   lambda cv, Dn=Dn, D1=D1, axis=axis: float(np.abs(Dn @ cv - ((D1 @ cv.reshape(N0, N1)) if axis == 0 else (cv.reshape(N0, N1) @ D1.T)).ravel()).max()))
+            for p in ps:
+                name = f'kron/{lab}/D{p if p > 1 else ""}-axis{axis}'
+                Dn = np.asarray(H.get_differentiation_matrix(axes=(axis,), p=p).todense()) if p > 1 else np.asarray(H.get_differentiation_matrix(axes=(axis,)).todense())
+                D1 = np.asarray(H.axes[axis].get_differentiation_matrix(p=p).todense()) if p > 1 else np.asarray(H.axes[axis].get_differentiation_matrix().todense())
+                if np.iscomplexobj(D1) or np.iscomplexobj(Dn):  # (Fourier axis: real and imaginary parts are decided separately)
+                    parts = [('re', Dn.real, D1.real), ('im', Dn.imag, D1.imag)]
+                else:
+                    parts = [('', Dn, D1)]
+                for plab, Dn_, D1_ in parts:
+                    big = float(np.abs(D1_).max())
+                    if big == 0 and not np.any(Dn_):
+                        continue
+                    u = [z3.Real(f'u{j}') for j in range(N0 * N1)]
+                    got = matvec(Dn_, u)
+                    U = np.array(u, dtype=object).reshape(N0, N1)
+                    spec = np.empty((N0, N1), dtype=object)
+                    for i in range(N0):
+                        for j in range(N1):
+                            if axis == 0:
+                                spec[i, j] = sum(rv(D1_[i, k]) * U[k, j] for k in range(N0)) if np.any(D1_[i]) else z3.RealVal(0)
+                            else:
+                                spec[i, j] = sum(rv(D1_[j, k]) * U[i, k] for k in range(N1)) if np.any(D1_[j]) else z3.RealVal(0)
+                    tol = Fraction(1, 10**10) * 100 * (Fraction(big) if (k0 or k1) else 1)
+                    decide(rep, name + (f'/{plab}' if plab else ''), close(got, list(spec.ravel()), rv(tol)), u, 'kronecker-expansion',
+                           lambda cv, Dn=Dn_, D1=D1_, axis=axis, tol=float(tol): float(np.abs(Dn @ cv - ((D1 @ cv.reshape(N0, N1)) if axis == 0 else (cv.reshape(N0, N1) @ D1.T)).ravel()).max()) * (1e-8 / tol))
 
 
 def kronconv_case(rep):
